@@ -19,7 +19,7 @@ ASSUMPTIONS = ["point(t) is the reference curve (C03/C04); arcs are evaluated on
 RULE += ' Also: Segments are re-checked after translated/reversed/rotated/in-place reassignment following a first bbox(); paths after moving their end through the Path interface.'   # added after the seeded-change rounds (DESIGN.md section 10)
 CONFIGS = ['scipy']
 BUDGET = {'quick': 16000, 'thorough': 300000}
-REQUIRED = ['then:translated', 'then:reversed', 'then:rotated', 'then:reassigned', 'kind:Q', 'kind:C', 'kind:A', 'kind:L', 'class:elevated', 'arc_extremes:0', 'arc_extremes:2', 'arc_extremes:4', 'path',
+REQUIRED = ['then:scaled_neg', 'then:translated', 'then:reversed', 'then:rotated', 'then:reassigned', 'kind:Q', 'kind:C', 'kind:A', 'kind:L', 'class:elevated', 'arc_extremes:0', 'arc_extremes:2', 'arc_extremes:4', 'path',
             'interior_extreme']
 
 EPS = 2.0 ** -52
@@ -35,11 +35,11 @@ def strategy(tier, config):
                                                                 break_prob=draw(st.sampled_from([0, 20]))))}
         if draw(st.integers(0, 3)) == 0:
             a = draw(st.one_of(gen.arc_center_form(), gen.arc_center_form(), gen.arc_endpoint_form()))
-            return {'what': 'seg', 'spec': a['spec'], 'tag': 'arc', 'then': draw(st.sampled_from(['none', 'none', 'translated', 'reversed', 'rotated']))}
+            return {'what': 'seg', 'spec': a['spec'], 'tag': 'arc', 'then': draw(st.sampled_from(['none', 'none', 'translated', 'reversed', 'rotated', 'scaled_neg', 'scaled_neg_twice']))}
         b = draw(gen.bezier_spec(classes=['generic', 'generic', 'collinear', 'foldback', 'repeat_start', 'repeat_end', 'repeat_mid',
                                           'elevated', 'elevated', 'elevated', 'axis', 'symmetric']))
         return {'what': 'seg', 'spec': b['spec'], 'tag': b['tag'],
-                'then': draw(st.sampled_from(['none', 'none', 'translated', 'reversed', 'rotated', 'reassigned']))}
+                'then': draw(st.sampled_from(['none', 'none', 'translated', 'reversed', 'rotated', 'reassigned', 'scaled_neg']))}
     return s()
 
 
@@ -223,6 +223,10 @@ def check(case, ctx):
                 d = ctx.lib('reversed', seg.reversed)
             elif then == 'rotated':
                 d = ctx.lib('rotated', seg.rotated, 90, seg.start)
+            elif then == 'scaled_neg':
+                d = ctx.lib('scaled', seg.scaled, -1.5)
+            elif then == 'scaled_neg_twice':
+                d = ctx.lib('scaled', ctx.lib('scaled', seg.scaled, -1.5).scaled, -0.5)
             else:
                 seg.start = seg.start + complex(-2 * w - 1, 3 * h + 1)
                 d = seg
